@@ -235,6 +235,119 @@ def multi_file(T, sc, W, stats):
     return None
 
 
+def run_on_tty(argv, cwd, lines, timeout=60):
+    """Runs argv with a pseudo-terminal as its controlling terminal and standard input / output (asconcrypt prompts through
+    getpass(), which talks to /dev/tty), typing `lines` one after the other.  Returns (exit status or None when the terminal
+    could not be set up, terminal output)."""
+    import pty
+    import select
+    import time
+    try:
+        pid, fd = pty.fork()
+    except OSError:
+        return None, b""
+    if pid == 0:
+        try:
+            os.chdir(cwd)
+            env = dict(os.environ)
+            env.pop("LD_PRELOAD", None)
+            os.execve(argv[0], argv, env)
+        finally:
+            os._exit(127)
+    out = b""
+    todo = [l.encode() + b"\n" for l in lines]
+    deadline = time.time() + timeout
+    status = None
+    try:
+        while time.time() < deadline:
+            r, _, _ = select.select([fd], [], [], 0.2)
+            if r:
+                try:
+                    chunk = os.read(fd, 4096)
+                except OSError:
+                    break
+                if not chunk:
+                    break
+                out += chunk
+                # answer every prompt once it has been printed
+                while todo and out.count(b"assword: ") > len(lines) - len(todo):
+                    time.sleep(0.05)          # getpass switches echo off after printing the prompt
+                    os.write(fd, todo.pop(0))
+            else:
+                p, st = os.waitpid(pid, os.WNOHANG)
+                if p == pid:
+                    status = st
+                    break
+        if status is None:
+            try:
+                p, st = os.waitpid(pid, os.WNOHANG)
+                if p == pid:
+                    status = st
+            except ChildProcessError:
+                pass
+        if status is None:
+            try:
+                os.kill(pid, 9)
+            except OSError:
+                pass
+            _, status = os.waitpid(pid, 0)
+            return -998, out
+    finally:
+        try:
+            os.close(fd)
+        except OSError:
+            pass
+    if status is None:
+        _, status = os.waitpid(pid, 0)
+    return (os.WEXITSTATUS(status) if os.WIFEXITED(status) else -os.WTERMSIG(status)), out
+
+
+def prompt_form(T, sc, W, data, enc, stats):
+    """The documented default: no -p / -k, the password is typed at the `Password:` prompt (twice when encrypting).  The typed
+    password is the password: what was encrypted that way decrypts with -p, what was encrypted with -p / -k decrypts by typing,
+    and a different typed password is refused."""
+    typed = "".join(c for c in sc["password"] if c.isalnum() or c in "%+-_=.,:/@")[:60] or "pw"
+    wd = W.sub()
+    with open(os.path.join(wd, "t.bin"), "wb") as f:
+        f.write(data)
+    rc, out = run_on_tty([T["asconcrypt"], "-e", "-o", "t.enc", "t.bin"], wd, [typed, typed])
+    if rc is None or rc == -998:
+        return None          # no pseudo-terminal here, or the exchange stalled: nothing can be said
+    stats["runs"] += 1
+    stats["nontrivial"].add(("prompt", len(typed), sc["size"]))
+    p = os.path.join(wd, "t.enc")
+    if rc != 0 or not os.path.exists(p):
+        return ("encrypting with the password typed at the prompt: exit status %s, terminal said %r" % (rc, out[-200:]), {"step": "prompt-encrypt"})
+    e2 = open(p, "rb").read()
+    scp = dict(sc, pwmode="p", naming="o", password=typed)
+    rc, se, o = decrypt(T, scp, W.sub(), e2)
+    stats["runs"] += 1
+    if rc != 0 or o != data:
+        return ("a file encrypted with a password typed at the prompt does not decrypt with the same password given by -p: rc=%d identical=%s stderr=%s"
+                % (rc, o == data, se.decode("utf-8", "replace")[-200:]), {"step": "prompt-cross"})
+    # the other direction, on the file of this case (encrypted under sc's own password through sc's channel)
+    own = sc["password"]
+    if own == typed:
+        wd2 = W.sub()
+        with open(os.path.join(wd2, "d.enc"), "wb") as f:
+            f.write(enc)
+        rc, out = run_on_tty([T["asconcrypt"], "-d", "-o", "d.out", "d.enc"], wd2, [typed])
+        stats["runs"] += 1
+        po = os.path.join(wd2, "d.out")
+        if rc not in (None, -998) and (rc != 0 or not os.path.exists(po) or open(po, "rb").read() != data):
+            return ("a file encrypted with -p / a key file does not decrypt when the same password is typed at the prompt: exit status %s" % rc, {"step": "prompt-decrypt"})
+    # a different typed password must be refused
+    wd3 = W.sub()
+    with open(os.path.join(wd3, "d.enc"), "wb") as f:
+        f.write(e2)
+    wrong = typed[:-1] + ("x" if typed[-1] != "x" else "y")
+    rc, out = run_on_tty([T["asconcrypt"], "-d", "-o", "d.out", "d.enc"], wd3, [wrong])
+    stats["runs"] += 1
+    if rc == 0 or os.path.exists(os.path.join(wd3, "d.out")):
+        return ("a wrong password typed at the prompt is accepted: exit status %s, output file present: %s" % (rc, os.path.exists(os.path.join(wd3, "d.out"))), {"step": "prompt-wrong"})
+    return None
+
+
 def stdio_form(T, sc, W, data, enc, stats):
     """asconcrypt -e ... - encrypts standard input to standard output; -d ... - decrypts it; both interoperate with files."""
     wd = W.sub()
@@ -302,6 +415,10 @@ def check_case(T, sc, stats, tier):
         e = stdio_form(T, sc, W, data, enc, stats)
         if e:
             return e
+        if sc["size"] <= 70000:
+            e = prompt_form(T, sc, W, data, enc, stats)
+            if e:
+                return e
         # wrong passwords
         for wpw in (sc["password"] + "x", sc["password"][:-1] or "y", sc["password"].swapcase() if sc["password"].swapcase() != sc["password"] else sc["password"] + " "):
             if wpw == sc["password"]:
@@ -452,6 +569,22 @@ def check_sum_case(T, sc, stats):
         wantc = "".join("%s: OK\n" % nm for nm in names)
         if rc != 0 or so.decode("utf-8", "replace") != wantc:
             return ("asconsum -c on unmodified files printed %r (rc=%d)" % (so.decode("utf-8", "replace")[:200], rc), {"step": "check-ok"})
+        # the same list in the other shapes a text file takes: no newline after the last line, CR LF line ends; given as a file or on
+        # standard input - the listed files are unmodified, so every one is OK
+        shape = sc["mod"]["pos"] % 4
+        if shape:
+            text = want[:-1] if shape == 1 else (want.replace("\n", "\r\n") if shape == 2 else want.replace("\n", "\r\n")[:-2])
+            with open(os.path.join(wd, "digests2.ascon"), "w", newline="") as f:
+                f.write(text)
+            if sc["mod"]["pos"] & 4:
+                with open(os.path.join(wd, "digests2.ascon"), "rb") as fin:
+                    rc, so, se = runp([T["asconsum"]] + ([flag] if flag else []) + ["-c"], wd, stdin=fin)
+            else:
+                rc, so, se = runp([T["asconsum"]] + ([flag] if flag else []) + ["-c", "digests2.ascon"], wd)
+            stats["runs"] += 1
+            if rc != 0 or so.decode("utf-8", "replace") != wantc:
+                return ("asconsum -c on unmodified files, list %s%s, printed %r (rc=%d)" % (["", "without a final newline", "with CR LF line ends", "with CR LF line ends and no final newline"][shape],
+                        " on standard input" if sc["mod"]["pos"] & 4 else "", so.decode("utf-8", "replace")[:200], rc), {"step": "check-ok-shape"})
         # modify according to the scenario
         m = sc["mod"]
         victim = m["victim"] % len(names)
